@@ -145,6 +145,8 @@ def compare_values(g, e, case, tags, nontrivial, rows, mode):
 
 def _vals(rng, dtype, n, vclass, name):
     k = np.dtype(dtype).kind
+    if vclass == "sparse":
+        return gen.values(rng, dtype, n, "sparse").tolist()
     if k == "f":
         if name in ("prod", "multiply"):
             return [rng.choice([0.5, 1.0, 2.0, -1.0, -2.0, 1.0, 1.0]) for _ in range(n)]
@@ -180,6 +182,8 @@ def directed():
             for name in NAMED:
                 for mode in ["method", "np", "keepdims"]:
                     yield gen_case(rng, lens, dtype, "small", mode, name)
+            for name in ("any", "all", "argmax", "argmin", "max", "sum"):
+                yield gen_case(rng, lens, dtype, "sparse", "method", name)
             for name in UFUNCS:
                 yield gen_case(rng, lens, dtype, "extreme", "ufunc.reduce", name)
             yield gen_case(rng, lens, dtype, "small", "ufunc-keepdims", "add")
@@ -226,7 +230,7 @@ def sweep(tier):
 def random_case(rng, tier):
     lens, _ = gen.length_vector(rng, tier)
     dtype = rng.choice(gen.DT_ALL)
-    vclass = rng.choice(["small", "small", "extreme", "nonfinite"])
+    vclass = rng.choice(["small", "small", "extreme", "nonfinite", "sparse", "sparse"])
     return gen_case(rng, lens, dtype, vclass, recv=rng.choice(c02.RECVS) if rng.random() < 0.35 else "fresh")
 
 
